@@ -365,7 +365,8 @@ def c12_script(rng, thorough):
             ib += 1
         powd = rng.choice([0, 4, 4, 8])
         for order in ("ab", "ba"):
-            lines.append("hs seeda=%d seedb=%d ida=%d idb=%d order=%s pow=%d adv=%d" % (sa, sb, ia, ib, order, powd, rng.choice([0, 1, 999, 5000])))
+            lines.append("hs seeda=%d seedb=%d ida=%d idb=%d order=%s pow=%d adv=%d%s" % (sa, sb, ia, ib, order, powd, rng.choice([0, 1, 999, 5000]),
+                                                                                               " rehs=1 rotwait=%d" % rng.choice([301, 600, 3601]) if rng.random() < 0.3 else ""))
     lines.append("reset")
     bad = [0, 1, p, p + 1, 2 ** 31, 2 ** 32 - 1] + [rng.randrange(p, 2 ** 32) for _ in range(6)]
     good = [2, p - 1, p - 2] + [rng.randrange(2, p) for _ in range(5)]
